@@ -7,6 +7,7 @@ where
   Item: Clone + Send + Sync,
 {
   take_op: operators::Take<Item>,
+  skip_op: operators::Skip<Item>,
 }
 
 impl<'a, Item> ElementAt<Item>
@@ -16,10 +17,12 @@ where
   pub fn new(count: usize) -> ElementAt<Item> {
     ElementAt {
       take_op: operators::Take::<Item>::new(count),
+      skip_op: operators::Skip::<Item>::new(count.saturating_sub(1)),
     }
   }
   pub fn execute(&self, source: Observable<'a, Item>) -> Observable<'a, Item> {
     let take_op = self.take_op.clone();
+    let skip_op = self.skip_op.clone();
 
     Observable::<Item>::create(move |s| {
       let source = source.clone();
@@ -29,9 +32,8 @@ where
       let sctl_error = sctl.clone();
       let sctl_complete = sctl.clone();
 
-      take_op
-        .execute(source)
-        .last()
+      skip_op
+        .execute(take_op.execute(source))
         .inner_subscribe(sctl.new_observer(
           move |_, x| {
             sctl_next.sink_next(x);
